@@ -18,6 +18,8 @@ Every case is executed through the real factories and ChargingNetwork:
           feasibility boundary by bisection and the same plant check is made there.
 """
 import json
+import contextlib
+import io
 import math
 import os
 import subprocess
@@ -55,6 +57,10 @@ def build(site, caps, volt, basic):
     with warnings.catch_warnings():
         warnings.simplefilter("ignore")
         if site == "caltech":
+            if not basic:
+                # the same site through the deprecated constructor, arguments by keyword (it prints a notice)
+                with contextlib.redirect_stdout(io.StringIO()):
+                    return sites.CaltechACN(basic_evse=basic, voltage=volt, transformer_cap=caps[0])
             return sites.caltech_acn(basic_evse=basic, voltage=volt, transformer_cap=caps[0])
         if site == "office001":
             return sites.office001_acn(basic_evse=basic, voltage=volt, transformer_cap=caps[0])
@@ -319,6 +325,16 @@ def replay_sched_all(case, stats=None):
                                                    "spec": want, "impl": float(got), "spreading": variant})
             feas = bool(net.is_feasible(sched))
             ran += 1
+            if variant == 0:
+                # the same load followed by idle periods, as many periods as the site has stations (a square schedule):
+                # feasibility is decided period by period, idle periods are feasible
+                n_st = len(net.station_ids)
+                square = np.zeros((n_st, n_st))
+                square[:, 0] = sched[:, 0]
+                feas_sq = bool(net.is_feasible(square))
+                if feas_sq != feas:
+                    found.setdefault("verdict", {"field": "is_feasible verdict (one loaded period + idle periods)", "evse": who,
+                                                 "spec": feas, "impl": feas_sq, "periods": n_st})
             if decisive and feas != case["feas"]:
                 found.setdefault("verdict", {"field": "is_feasible verdict", "evse": who, "spec": case["feas"], "impl": feas,
                                              "spreading": variant,
